@@ -65,15 +65,16 @@ def CycNZ (E : Engine) : Prop :=
 
 /-- What a job needs of the two engines for its out-of-band rebuild (`redo-unlocked`): agreement in
 every context with the same ancestors and no further out-of-band level. -/
-def AgreeOob (nc : Bool) (N : Nat) (E1 E2 : Engine) (cx : Ctx) : Prop :=
-  ∀ cx0 : Ctx, cx0.cycles = cx.cycles → cx0.noOob = true → ∀ ts, (∀ x ∈ ts, x < N) →
+def AgreeOob (nc : Bool) (N : Nat) (E1 E2 : Engine) (cx : Ctx) (t : Nat) : Prop :=
+  ∀ cx0 : Ctx, (cx0.cycles = cx.cycles ∨ (cx0.cycles = t :: cx.cycles ∧ cx0.unlocked = false)) →
+    cx0.noOob = true → ∀ ts, (∀ x ∈ ts, x < N) →
     (cx0.unlocked = true → ∀ x ∈ ts, x ∉ cx.cycles) → ∀ w, WInv nc N w →
     Agree nc N (E1.ifchangeCmd cx0 ts w) (E2.ifchangeCmd cx0 ts w)
 
 theorem buildJob_agree (N : Nat) (E1 E2 : Engine) (d : Defects) (cx : Ctx) (f1 f2 t : Nat) (w : World)
     (hf : FuelOK N f1 f2) (ht : t < N) (htc : t ∉ cx.cycles) (hw : WInv nc N w)
     (hS : AgreeAt nc N E1 E2 { runid := cx.runid, parent := some t, cycles := t :: cx.cycles, keepGoing := cx.keepGoing, crash := cx.crash })
-    (hO : nc = false → cx.noOob = false → AgreeOob nc N E1 E2 cx) (hC : nc = false → cx.noOob = false → CycNZ E1) :
+    (hO : nc = false → cx.noOob = false → AgreeOob nc N E1 E2 cx t) (hC : nc = false → cx.noOob = false → CycNZ E1) :
     buildJob E1 d cx f1 t w = buildJob E2 d cx f2 t w ∧ WInv nc N (buildJob E1 d cx f1 t w).2 := by
   obtain ⟨hsb, hsw, hsn⟩ := shouldBuild_agree N cx f1 f2 t w hf ht hw
   unfold buildJob
@@ -108,9 +109,9 @@ theorem buildJob_agree (N : Nat) (E1 E2 : Engine) (d : Defects) (cx : Ctx) (f1 f
           · exact hts x (List.mem_eraseDups.1 (List.mem_reverse.1 hx))
           · exact hts x (List.mem_eraseDups.1 hx)
         generalize (if w1.oobRev then ts.eraseDups.reverse else ts.eraseDups) = ts' at hts'
-        have h1 := hO' { cx with noOob := true, unlocked := false, isRedo := false, parent := if d.oobRecordsDepsOnCaller then cx.parent else none }
-          rfl rfl ts' hts' (fun h => by cases h) w1 hsw
-        have hnz := hC hncf (by simpa using hno) { cx with noOob := true, unlocked := false, isRedo := false, parent := if d.oobRecordsDepsOnCaller then cx.parent else none } ts' w1 rfl
+        have h1 := hO' { cx with noOob := true, unlocked := false, isRedo := false, cycles := t :: cx.cycles, parent := if d.oobRecordsDepsOnCaller then cx.parent else none }
+          (Or.inr ⟨rfl, rfl⟩) rfl ts' hts' (fun h => by cases h) w1 hsw
+        have hnz := hC hncf (by simpa using hno) { cx with noOob := true, unlocked := false, isRedo := false, cycles := t :: cx.cycles, parent := if d.oobRecordsDepsOnCaller then cx.parent else none } ts' w1 rfl
         obtain ⟨he1, hw2⟩ := h1
         rw [he1] at hw2 hnz ⊢
         generalize E2.ifchangeCmd _ ts' w1 = r1 at hw2 hnz ⊢
@@ -122,11 +123,11 @@ theorem buildJob_agree (N : Nat) (E1 E2 : Engine) (d : Defects) (cx : Ctx) (f1 f
           have hsec : ∀ x ∈ (if d.oobRebuildsDepsNotTarget then ts' else [t]), x < N ∧ x ∉ cx.cycles := by
             intro x hx
             split at hx
-            · exact ⟨hts' x hx, fun hc => hnz ⟨x, hx, hc⟩ rfl⟩
+            · exact ⟨hts' x hx, fun hc => hnz ⟨x, hx, List.mem_cons_of_mem _ hc⟩ rfl⟩
             · simp only [List.mem_singleton] at hx
               subst hx
               exact ⟨ht, htc⟩
-          have h2 := hO' { cx with noOob := true, unlocked := true, isRedo := false } rfl rfl _
+          have h2 := hO' { cx with noOob := true, unlocked := true, isRedo := false } (Or.inl rfl) rfl _
             (fun x hx => (hsec x hx).1) (fun _ x hx => (hsec x hx).2) w2 hw2
           exact ⟨congrArg (fun r : Status × World => (JobResult.done r.1, r.2)) h2.1, h2.2⟩
         · rename_i heq
@@ -168,11 +169,22 @@ theorem AgreeBelow.script {N : Nat} {E1 E2 : Engine} {cx : Ctx} (hA : AgreeBelow
     all_goals omega
 
 theorem AgreeBelow.oob {N : Nat} {E1 E2 : Engine} {cx : Ctx} (hA : AgreeBelow nc N E1 E2 (lvl nc N cx)) (hcx : CtxOK N cx)
-    (hnc : nc = false) (hno : cx.noOob = false) : AgreeOob nc N E1 E2 cx := by
+    (hnc : nc = false) (hno : cx.noOob = false) {t : Nat} (ht : t < N) (htc : t ∉ cx.cycles) :
+    AgreeOob nc N E1 E2 cx t := by
   intro cx0 hcy hno0 ts hts hun w hw
-  refine hA cx0 ts w ⟨hcy ▸ hcx.nodup, hcy ▸ hcx.below, fun _ => hno0⟩ hts (fun h => hcy ▸ hun h) hw ?_
-  simp only [lvl, hcy, hno0, hno, hnc, if_true, Bool.false_eq_true, if_false]
-  omega
+  rcases hcy with hcy | ⟨hcy, hu0⟩
+  · refine hA cx0 ts w ⟨hcy ▸ hcx.nodup, hcy ▸ hcx.below, fun _ => hno0⟩ hts (fun h => hcy ▸ hun h) hw ?_
+    simp only [lvl, hcy, hno0, hno, hnc, if_true, Bool.false_eq_true, if_false]
+    omega
+  · refine hA cx0 ts w ⟨hcy ▸ List.nodup_cons.2 ⟨htc, hcx.nodup⟩, ?_, fun _ => hno0⟩ hts
+      (fun h => by rw [hu0] at h; cases h) hw ?_
+    · intro x hx
+      rw [hcy] at hx
+      rcases List.mem_cons.1 hx with e | e
+      · exact e ▸ ht
+      · exact hcx.below x e
+    · simp only [lvl, hcy, hno0, hno, hnc, if_true, Bool.false_eq_true, if_false, List.length_cons]
+      omega
 
 theorem runTargets_agree (N : Nat) (E1 E2 : Engine) (d : Defects) (cx : Ctx) (f1 f2 : Nat) (hf : FuelOK N f1 f2)
     (hcx : CtxOK N cx) (hA : AgreeBelow nc N E1 E2 (lvl nc N cx)) (hC : nc = false → cx.noOob = false → CycNZ E1) :
@@ -206,7 +218,7 @@ theorem runTargets_agree (N : Nat) (E1 E2 : Engine) (d : Defects) (cx : Ctx) (f1
               apply hcy
               simp [hu, hc]
           obtain ⟨hje, hjw⟩ := buildJob_agree N E1 E2 d cx f1 f2 t (addKnown w t) hf ht htc (hw.addKnown t)
-            (hA.script hcx ht htc) (fun hnc hno => hA.oob hcx hnc hno) hC
+            (hA.script hcx ht htc) (fun hnc hno => hA.oob hcx hnc hno ht htc) hC
           rw [hje] at hjw ⊢
           generalize buildJob E2 d cx f2 t (addKnown w t) = r at hjw ⊢
           obtain ⟨jr, w1⟩ := r
